@@ -110,6 +110,35 @@ class Append:
         return "<append %s meta=%s @%s>" % (self.topic_lits, sorted(self.meta) if self.meta else None, self.call.sp)
 
 
+CAS_PRODUCERS = ("cacache::put::Writer::commit", "cacache::put::SyncWriter::commit", "xs::store::Store::cas_insert", "xs::store::Store::cas_insert_sync",
+                 "xs::nu::util::write_pipeline_to_cas")
+
+
+def frame_builds(body):
+    """[(build_call, start, setters{name: arg})] for every Frame builder chain finished in `body`."""
+    out = []
+    for c in body.calls():
+        if c.bb in body.live_blocks() and c.fn.startswith("xs::store::FrameBuilder") and c.fn.endswith("::build"):
+            start, chain = q.builder_chain(("call", c, c.arg_exprs()))
+            setters = {}
+            for (name, arg, cc) in chain:
+                setters[name.replace("maybe_", "")] = arg
+            out.append((c, start, setters))
+    return out
+
+
+def content_sources(arg):
+    """CAS-producing calls the value of a `hash` setter comes from."""
+    if arg is None:
+        return []
+    found = []
+    for o in list(q.origins(arg)) + [arg]:
+        for y in walk(o):
+            if y[0] == "call" and y[1].fn in CAS_PRODUCERS:
+                found.append(y[1])
+    return found
+
+
 def appends_in(body):
     return [Append(body, c) for c in q.live_calls(body, C.APPEND)]
 
